@@ -74,10 +74,10 @@ PLANS = {
              extra_assume=["'never hangs' is restated as a bound: every call on a document of at most 64 KiB finishes within 10 s of thread CPU time (observed maximum is reported); a wall-clock watchdog firing is inconclusive, not a violation",
                            "domain: documents the text interfaces can deliver (serde_json recursion limit 128)"]),
     "C17": P("a pool of (rule, data) pairs (same rule on different data, different rules on the same data, erroring and logging calls; 120 x 8 quick, 400 x 12 thorough) is first evaluated once per pair (isolated result, log trace and allocation count), then driven through randomised histories biased towards 'same rule, other data' / 'other rule, same data' / exact repeats; each result and log trace must equal the isolated one, inputs must be unchanged, net live heap after the call must be 0 and the allocation count must equal the isolated count (hidden caches / memos). Concurrency: 2 / 4 / 16 threads on a barrier share the pool (half of the calls on 8 hot pairs), random yields and spins; each result must equal the isolated one and the multiset of printed lines must be the union of the isolated traces; lanes: native, ThreadSanitizer (build-std), Miri with different seeds. Process level: one call per fresh process vs the same calls in one process; strace deny-list on the real CLI (only writes to fd 1 / 2). Non-trivial = history steps of the two biased kinds and distinct completion orders; distinct by (pair, predecessor) / schedule signature.",
-             ["c17.history", "c17.immutability", "c17.heap-conservation", "c17.alloc-determinism", "c17.concurrent", "c17.concurrent-effects", "c17.effects", "c17.log-identity", "c17.syscalls", "c17.fresh-process"],
+             ["c17.history", "c17.immutability", "c17.heap-conservation", "c17.alloc-determinism", "c17.concurrent", "c17.concurrent-effects", "c17.effects", "c17.log-identity", "c17.syscalls", "c17.fresh-process", "c17.stderr-silent", "c17.environment-independence"],
              inproc={"quick": [("relchk", 16, 2.0), ("tsan", 8, 0.25), ("miri", 4, None)],
                      "thorough": [("relchk", 16, 2.0), ("tsan", 16, 0.5), ("miri", 16, None)]},
-             proc={"quick": [PL.strace_lane, PL.fresh_process_lane], "thorough": [PL.strace_lane, PL.fresh_process_lane]},
+             proc={"quick": [PL.strace_lane, PL.fresh_process_lane, PL.env_lane], "thorough": [PL.strace_lane, PL.fresh_process_lane, PL.env_lane]},
              cells=["history:same-rule-other-data", "history:other-rule-same-data", "history:exact-repeat", "concurrent:threads=16", "concurrent:threads=2"],
              extra_assume=["'every schedule' is sampled, not enumerated: the evidence reports the number of distinct completion orders, TSan executions and Miri seeds",
                            "heap conservation is measured by a counting global allocator owned by the harness (per-thread counters); it is compiled out in the sanitizer and Miri lanes"]),
